@@ -142,13 +142,13 @@ def h_shape_bbox_curved(h):
             if cand.key == t.key:
                 b = bnd
         if b is None:
-            h.check(False, "bounding_box.asked_skia_about_this_shape")
-            return []
+            # never asked for the tight bounds of this geometry: compare with them all the same
+            p = FP.Path()
+            for cmd, args in cmds:
+                {"M": p.moveTo, "L": p.lineTo, "Q": p.quadTo, "C": p.cubicTo, "Z": p.close}[cmd](*args)
+            b = p.bounds
         x1, y1, x2, y2 = b
-    h.check_eq(bb.x, x1, "bounding_box.x")
-    h.check_eq(bb.y, y1, "bounding_box.y")
-    h.check_eq(bb.x + bb.w, x2, "bounding_box.xmax")
-    h.check_eq(bb.y + bb.h, y2, "bounding_box.ymax")
+    h.check(h.and_(h.eq(bb.x, x1), h.eq(bb.y, y1), h.eq(bb.x + bb.w, x2), h.eq(bb.y + bb.h, y2)), "bounding_box.is_the_tight_box")
     return []
 
 
@@ -189,7 +189,7 @@ def h_doc_bbox(h):
 
 
 # ------------------------------------------------------------- clip_to_viewbox
-SHAPE_KINDS = ["poly", "curve", "evenodd"]
+SHAPE_KINDS = ["poly", "curve", "evenodd", "quad"]
 
 
 def make_clip(case):
@@ -213,6 +213,11 @@ def make_clip(case):
                 d = f"M{tok(p[0])},{tok(p[1])} C{tok(p[2])},{tok(p[3])} {tok(p[4])},{tok(p[5])} {tok(p[6])},{tok(p[7])} Z"
                 fr = "nonzero"
                 cmds = [("M", (p[0], p[1])), ("C", tuple(p[2:8])), ("Z", ())]
+            elif kind == "quad":
+                p = [h.real(f"s{i}_{j}") for j in range(6)]
+                d = f"M{tok(p[0])},{tok(p[1])} Q{tok(p[2])},{tok(p[3])} {tok(p[4])},{tok(p[5])} Z"
+                fr = "nonzero"
+                cmds = [("M", (p[0], p[1])), ("Q", tuple(p[2:6])), ("Z", ())]
             else:
                 p = [h.real(f"s{i}_{j}") for j in range(6)]
                 d = f"M{tok(p[0])},{tok(p[1])} L{tok(p[2])},{tok(p[3])} L{tok(p[4])},{tok(p[5])} Z"
@@ -242,9 +247,6 @@ def make_clip(case):
         for i, inf in enumerate(info):
             e = by_id.get(inf["id"])
             b = _bounds(h, inf["cmds"])
-            if b is None:
-                h.check(False, "clip.bounds_not_requested")
-                continue
             bx0, by0, bx1, by1 = b
             ix0, iy0 = mx(h, bx0, vb[0]), mx(h, by0, vb[1])
             ix1, iy1 = mn(h, bx1, vb[0] + vb[2]), mn(h, by1, vb[1] + vb[3])
@@ -318,7 +320,12 @@ def _bounds(h, cmds):
     for cand, bnd in reg.get("bounds_terms", []):
         if cand.kind == "leaf" and cand.args[0] == t.args[0] and atoms._coords_equal(cand.args[2], t.args[2]):
             return bnd
-    return None
+    # the implementation never asked for the tight bounds of this geometry: they are still what the
+    # property is about (exact for polylines, the abstract tight box for curves)
+    p = FP.Path()
+    for cmd, args in cmds:
+        {"M": p.moveTo, "L": p.lineTo, "Q": p.quadTo, "C": p.cubicTo, "Z": p.close}[cmd](*args)
+    return p.bounds
 
 
 def _concrete_clip_check(h, inf, cmds_out, vb, e):
@@ -408,7 +415,7 @@ def describe(tier):
             "to shape ∩ (bounds ∩ viewBox), dropped iff bounds and viewBox have disjoint interiors, untouched iff bounds ⊆ viewBox."
         ),
         "bounds": {
-            "documents": f"1..{2 if tier == 'quick' else 3} paths of kinds polyline triangle / closed cubic / evenodd triangle, optionally the first two in a translucent group",
+            "documents": f"1..{2 if tier == 'quick' else 3} paths of kinds polyline triangle / closed cubic / evenodd triangle / closed quadratic, optionally the first two in a translucent group",
             "numbers": "viewBox (w,h>0) and all coordinates: every real",
         },
         "outside": [
